@@ -138,6 +138,29 @@ theorem readMethodAttr_enc (p : Pool) (bsms : Option (List Bsm)) (a : SMethodAtt
           n1, n2, n3, n4, n5, n6, if_false, if_true, hread, pure_eq], ?_, ?_⟩
       · rw [hr1]
       · simpa using hr2
+  | typeAnnotations nc visible as =>
+    obtain ⟨h1, h2, h3, h4, h5⟩ := ha
+    have hread : readTypeAnnos p readTargetMethod (encTypeAnnos as ++ r) = ok (as.map STypeAnno.fact, r) :=
+      readTypeAnnos_enc p .method as h3 h4 r
+    cases visible with
+    | true =>
+      obtain ⟨n1, n2, n3, n4, n5, n6, n7⟩ := methodNe_RVTA
+      simp only [SMethodAttr.apply, if_true, Option.some.injEq] at h; subst h
+      simp only [if_true] at h2
+      refine ⟨{ mr with rvta := mr.rvta ++ as.map STypeAnno.fact }, by
+        simp only [readMethodAttr, SMethodAttr.raw, attrFrame, List.append_assoc, u16_be16 _ h1, ok_bind, h2, u32_be32 _ h5,
+          n1, n2, n3, n4, n5, n6, n7, if_false, if_true, hread, pure_eq], ?_, ?_⟩
+      · rw [hr1]
+      · simpa using hr2
+    | false =>
+      obtain ⟨n1, n2, n3, n4, n5, n6, n7, n8⟩ := methodNe_RITA
+      simp only [SMethodAttr.apply, Bool.false_eq_true, if_false, Option.some.injEq] at h; subst h
+      simp only [Bool.false_eq_true, if_false] at h2
+      refine ⟨{ mr with rita := mr.rita ++ as.map STypeAnno.fact }, by
+        simp only [readMethodAttr, SMethodAttr.raw, attrFrame, List.append_assoc, u16_be16 _ h1, ok_bind, h2, u32_be32 _ h5,
+          n1, n2, n3, n4, n5, n6, n7, n8, if_false, if_true, hread, pure_eq], ?_, ?_⟩
+      · rw [hr1]
+      · simpa using hr2
   | annotationDefault nc e =>
     obtain ⟨h1, h2, h3, h4⟩ := ha
     obtain ⟨n1, n2, n3, n4, n5, n6, n7, n8, n9, n10, n11⟩ := methodNe_AnnotationDefault
